@@ -27,12 +27,17 @@ type c08p struct {
 	// the flush queue, the ingest actor and the ingest buffer, so that the other producers
 	// block inside IngestRows while Stop runs)
 	backlog int
+	// flusher: one more task calls Flush concurrently with the producers and Stop
+	flusher bool
 }
 
 func (p c08p) name() string {
 	n := fmt.Sprintf("ctx_%s-wedge_%s-honor_%v-p%d-ib%d-abandoned_%v", p.ctx, p.wedge, p.honor, p.producers, p.ib, p.abandoned)
 	if p.backlog > 2 {
 		n += fmt.Sprintf("-backlog%d", p.backlog)
+	}
+	if p.flusher {
+		n += "-flusher"
 	}
 	return n
 }
@@ -152,6 +157,22 @@ func c08Root(p c08p) func() {
 				}
 			}()
 		}
+		if p.flusher {
+			wg.Add(1)
+			go func() {
+				defer wg.Done()
+				vapi.Log("call Flush")
+				err := eng.Flush(bg)
+				switch {
+				case err == nil:
+					vapi.Log("ret Flush ok")
+				case errors.Is(err, bs.ErrEngineStopped):
+					vapi.Log("ret Flush stopped")
+				default:
+					vapi.Log("ret Flush err")
+				}
+			}()
+		}
 		var stopCtx context.Context = bg
 		var cancel context.CancelFunc
 		switch p.ctx {
@@ -217,7 +238,7 @@ func c08Root(p c08p) func() {
 		}
 		if firstRefusedRet >= 0 {
 			for i := firstRefusedRet + 1; i < len(log); i++ {
-				if strings.HasPrefix(log[i], "call P") || log[i] == "call late" {
+				if strings.HasPrefix(log[i], "call P") || log[i] == "call late" || log[i] == "call Flush" {
 					name := strings.TrimPrefix(log[i], "call ")
 					if logIndex(log, "ret "+name+" ok") >= 0 {
 						vapi.Fail("C08: call %s began after another call had already been refused with ErrEngineStopped, yet it was accepted", name)
@@ -270,13 +291,16 @@ func init() {
 		var ps []c08p
 		if tier == "quick" {
 			ps = []c08p{
-				{"bg", "", false, 2, 1, false, 0},
-				{"deadline", "CreateFile", false, 2, 1, false, 0},
-				{"deadline", "Update", true, 2, 1, false, 0},
-				{"expired", "CreateFile", false, 2, 2, false, 0},
-				{"deadline", "", false, 2, 1, true, 0},
+				{"bg", "", false, 2, 1, false, 0, false},
+				{"deadline", "CreateFile", false, 2, 1, false, 0, false},
+				{"deadline", "Update", true, 2, 1, false, 0, false},
+				{"expired", "CreateFile", false, 2, 2, false, 0, false},
+				{"deadline", "", false, 2, 1, true, 0, false},
 				// a saturated pipeline: callers blocked inside IngestRows when Stop begins
-				{"deadline", "CreateFile", false, 2, 1, false, 4},
+				{"deadline", "CreateFile", false, 2, 1, false, 4, false},
+				// Flush racing Stop
+				{"bg", "", false, 1, 1, false, 0, true},
+				{"deadline", "CreateFile", false, 1, 2, false, 0, true},
 			}
 		} else {
 			for _, c := range []string{"bg", "deadline", "expired", "custom"} {
@@ -290,16 +314,20 @@ func init() {
 						}
 						for _, np := range []int{2, 3} {
 							for _, ib := range []int{1, 2} {
-								ps = append(ps, c08p{c, w, honor, np, ib, false, 0})
+								ps = append(ps, c08p{c, w, honor, np, ib, false, 0, false})
 							}
 						}
 					}
 				}
+				if c == "bg" {
+					ps = append(ps, c08p{c, "", false, 1, 1, false, 0, true}, c08p{c, "", false, 2, 2, false, 0, true})
+				}
 				if c != "bg" {
-					ps = append(ps, c08p{c, "", false, 2, 1, true, 0}, c08p{c, "CreateFile", false, 2, 1, true, 0})
+					ps = append(ps, c08p{c, "", false, 2, 1, true, 0, false}, c08p{c, "CreateFile", false, 2, 1, true, 0, false},
+						c08p{c, "", false, 1, 1, false, 0, true}, c08p{c, "CreateFile", false, 2, 1, false, 0, true}, c08p{c, "Update", true, 1, 2, false, 0, true})
 					for _, bl := range []int{4, 5} {
-						ps = append(ps, c08p{c, "CreateFile", false, 2, 1, false, bl}, c08p{c, "Update", true, 2, 1, false, bl},
-							c08p{c, "", false, 2, 1, true, bl}, c08p{c, "CreateFile", false, 3, 1, false, bl})
+						ps = append(ps, c08p{c, "CreateFile", false, 2, 1, false, bl, false}, c08p{c, "Update", true, 2, 1, false, bl, false},
+							c08p{c, "", false, 2, 1, true, bl, false}, c08p{c, "CreateFile", false, 3, 1, false, bl, false})
 					}
 				}
 			}
